@@ -220,7 +220,7 @@ pub fn run_bytes(bytes: Vec<u8>, label: Value, em: &mut Emitter) {
 // ---------------------------------------------------------------- fault documents (TLC cases)
 fn base_regular() -> Value {
     json!({"version": 3, "file": "f.js", "sourceRoot": "r", "sources": ["a.js", "/abs/b.js"], "sourcesContent": ["function a(){}\nvar é=1;", null],
-           "names": ["n0", "n1"], "mappings": "AAAAA,CACCC;AAEA", "rangeMappings": "B", "ignoreList": [1],
+           "names": ["n0", "n1"], "mappings": "AAAAA,CACCC,C;AAEA", "rangeMappings": "B", "ignoreList": [1],
            "debug_id": "a0b1c2d3-e4f5-4a6b-8c7d-9e0f1a2b3c4d"})
 }
 fn base_hermes() -> Value {
@@ -281,7 +281,7 @@ fn apply_fault(doc: &mut Value, kind: &str, ft: &Value, dups: &mut Vec<String>) 
             // three tokens on line 0 (the faulty one in the middle, reachable by lookups to its right), one on line 1;
             // the first two are range tokens
             let col = if key == "dst_col" { b.clone() } else { "E".to_string() };
-            target["mappings"] = json!(format!("AAAAA,{}{}{}{}{},GAAAA;{}", col, fld("src_id"), fld("src_line"), fld("src_col"), fld("name_id"), "CAAA"));
+            target["mappings"] = json!(format!("AAAAA,{}{}{}{}{},GAAAA,C;{}", col, fld("src_id"), fld("src_line"), fld("src_col"), fld("name_id"), "CAAA"));
             if target.get("rangeMappings").is_some() { target["rangeMappings"] = json!("D"); }
         }
         "nest" => {
